@@ -6,6 +6,7 @@
 
 pub mod codecs;
 pub mod ctx;
+pub mod derive_check;
 pub mod model;
 pub mod rng;
 pub mod util;
